@@ -672,7 +672,8 @@ func isEnv(a string) bool {
 	return a == "Report" || a == "Deliver" || a == "Disconnect" || a == "Timeout"
 }
 
-func (e *env) run(res *result, tr mbt.Trace) {
+// run replays one behaviour and returns the function that releases the node (run by the caller, with a time limit).
+func (e *env) run(res *result, tr mbt.Trace) (cleanup func()) {
 	fail := func(si int, st mbt.Step, kind string, prop bool, key, detail string, want, got interface{}) {
 		res.Failures = append(res.Failures, mbt.Failure{TraceID: tr.ID, Step: si, Action: fmt.Sprintf("%s%v", st.A, st.Args),
 			Kind: kind, Property: prop, Key: key, Detail: detail, Want: want, Got: got})
@@ -697,7 +698,7 @@ func (e *env) run(res *result, tr mbt.Trace) {
 		fail(0, mbt.Step{}, "error", false, "node-setup", err.Error(), nil, nil)
 		return
 	}
-	defer n.stop()
+	cleanup = n.stop
 
 	// invariant checks on the real node, independent of the specification
 	checkStore := func(si int, st mbt.Step) bool {
@@ -865,6 +866,7 @@ func (e *env) run(res *result, tr mbt.Trace) {
 	if changeAt > 1 && int(n.kit.Ang.VerifAsmStore().Height()) >= changeAt {
 		res.Counters["synced_across_valset_change"]++
 	}
+	return
 }
 
 // specFirstPeer returns the peer holding the block at height h in a specification state ("" if none).
